@@ -83,7 +83,8 @@ static void linuxnode_cb(struct hwloc_topology *t, int root_fd, int dist, int dc
   if ((sub = ln_opendir(root_fd, "/proc/driver/nvidia/gpus"))) { nvidia = 1; closedir(sub); }
   printf("lnode begin dist=%d dcl=%d init=%d knl=%d fake=%d power=%d msc=%d mattr=%d", dist, dcl, init, knl, fake, power, msc, mattr);
   if (eo) printf(" overlap=%d", atoi(eo)); else printf(" overlap=-");
-  printf(" knlquirk=%d nvidia=%d keep=%d rootnodes=%d\n", ek ? atoi(ek) : 1, nvidia, keep != 0, !hwloc_bitmap_iszero(hwloc_get_root_obj(t)->nodeset));
+  printf(" knlquirk=%d nvidia=%d keep=%d rootnodes=%d pus=", ek ? atoi(ek) : 1, nvidia, keep != 0, !hwloc_bitmap_iszero(hwloc_get_root_obj(t)->nodeset));
+  hwv_pset(stdout, hwloc_get_root_obj(t)->cpuset); printf("\n");
   if ((sub = ln_opendir(root_fd, "/proc/driver/nvidia/gpus"))) {
     /* the GPUs, readdir order: numa_status and the local cpus of the PCI device of that name */
     struct dirent *e;
